@@ -92,6 +92,9 @@ package core
 //@   (typ == "S" && v.S != nil) || (typ == "N" && v.N != nil) || (typ == "BOOL" && v.BOOL != nil) || (typ == "B" && v.B != nil) ||
 //@   (typ == "L" && v.L != nil) || (typ == "M" && v.M != nil) || (typ == "BS" && v.BS != nil) || (typ == "SS" && v.SS != nil) || (typ == "NS" && v.NS != nil)
 
+// KeyText: the text of a string- or number-typed key attribute; the key string is made of exactly these texts
+//@ pred KeyText(v *types.Item, typ string) := (typ == "S" ? *v.S : *v.N)
+
 //@ func keySchema.GetKey
 //@   pure
 //@   ensures result1 != nil ==> result0 == ""
@@ -101,6 +104,9 @@ package core
 //@   ensures[C13] ks.RangeKey != "" && ks.HashKey in item && ks.RangeKey in item && !HasType(item[ks.RangeKey], attrs[ks.RangeKey]) ==> result1 != nil
 //@   ensures[C03] ks.Secondary && !(ks.HashKey in item) ==> result1 == nil && result0 == ""
 //@   ensures[C03] ks.Secondary && ks.RangeKey != "" && ks.HashKey in item && HasType(item[ks.HashKey], attrs[ks.HashKey]) && !(ks.RangeKey in item) ==> result1 == nil && result0 == ""
+//@   ensures[C13] result1 == nil && ks.RangeKey == "" && ks.HashKey in item && (attrs[ks.HashKey] == "S" || attrs[ks.HashKey] == "N") ==> result0 == KeyText(item[ks.HashKey], attrs[ks.HashKey])
+//@   ensures[C13] result1 == nil && ks.RangeKey != "" && ks.HashKey in item && ks.RangeKey in item && (attrs[ks.HashKey] == "S" || attrs[ks.HashKey] == "N") && (attrs[ks.RangeKey] == "S" || attrs[ks.RangeKey] == "N") ==>
+//@                result0 == KeyText(item[ks.HashKey], attrs[ks.HashKey]) + "." + KeyText(item[ks.RangeKey], attrs[ks.RangeKey])
 //@   ensures[C13] ks.HashKey in item && HasType(item[ks.HashKey], attrs[ks.HashKey]) && (ks.RangeKey == "" || (ks.RangeKey in item && HasType(item[ks.RangeKey], attrs[ks.RangeKey]))) ==> result1 == nil
 
 //@ func (*Table).interpreterMatch
